@@ -50,7 +50,8 @@ class SymmetricQuantizer(Function):
                 raise ValueError(
                     "When quantizing per-axis, the scale must be broadcastable to the base (Tip: try to add missing dims of length zero)."
                 )
-        data = base / scale
+        # A null scale is obtained when all values are null: 0 / 0 must not produce NaN codes
+        data = torch.nan_to_num(base / scale, nan=0.0)
         if not qtype.is_floating_point:
             data = torch.round(data)
         info = dtype_info(qtype.dtype)
